@@ -291,3 +291,23 @@ class StreetColumn:
 
     def __getattr__(self, name):
         return getattr(self.chk, name)
+
+
+class Every:
+    """a verdict over all the places a clause applies to: true when there was at least one and every one of them was as prescribed
+    (a verdict that is simply assigned in a loop is the verdict of whichever place came last - an added path or a second write
+    could then hide behind a good one)"""
+
+    def __init__(self):
+        self.n = 0
+        self.bad = 0
+
+    def see(self, v) -> None:
+        self.n += 1
+        self.bad += 0 if v else 1
+
+    def __bool__(self) -> bool:
+        return self.n > 0 and self.bad == 0
+
+    def __repr__(self) -> str:
+        return str(bool(self))
